@@ -106,9 +106,11 @@ both_families! {
 	}
 
 	pub fn run(case: &Case) -> (Obs, u64, u64) {
-		let text: &str = case.text.as_str();
+		run_text(case.kind, case.text.as_str())
+	}
+
+	pub fn run_text(kind: Kind, text: &str) -> (Obs, u64, u64) {
 		let input = text.as_bytes();
-		let kind = case.kind;
 		counted(move || {
 			let mut o = Obs::default();
 			match kind {
@@ -277,6 +279,19 @@ impl Prop for C20 {
 	fn check(case: &Case, cx: &mut Ctx) -> Result<(), Failure> {
 		if case.fam == Fam::Uri && !case.text.is_ascii() {
 			// still a legitimate *rejected* input for the URI family: must not allocate either
+		}
+		// the same text borrowed at an odd offset inside a larger buffer
+		{
+			let k = 1 + case.text.len() % 7;
+			let padded = format!("{}{}{}", &"~~~~~~~~"[..k], case.text, "~~~");
+			let sub = Case { fam: case.fam, kind: case.kind, text: String::new() };
+			let _ = sub;
+			let view: &str = &padded[k..k + case.text.len()];
+			let (o, n, bytes) = match case.fam { Fam::Uri => u::run_text(case.kind, view), Fam::Iri => i::run_text(case.kind, view) };
+			ensure!(n == 0, "allocates:misaligned", "{:?} (borrowed at offset {k} of a larger buffer, len {}): {} heap allocation(s) ({} bytes)", case.kind, case.text.len(), n, bytes);
+			if let Some(b) = o.bad {
+				return Err(Failure::new(format!("zero-copy-misaligned:{b}"), format!("{:?} {:?} borrowed at offset {k} of a larger buffer: {b}", case.kind, crate::engine::truncate(&case.text, 200))));
+			}
 		}
 		let (o, n, bytes) = by_fam!(case.fam, run(case));
 		ensure!(n == 0, if o.accepted { "allocates:accepted" } else { "allocates:rejected" }, "{:?} {:?} (len {}): {} heap allocation(s) ({} bytes) while parsing / reading ({} calls)", case.kind, crate::engine::truncate(&case.text, 120), case.text.len(), n, bytes, o.calls);
